@@ -50,7 +50,7 @@ C13OK(e) ==
   /\ (e.act = "RaiseIn") => e.raised = TRUE
   /\ (e.act = "LibCall") => (e.outcome = "ok" /\ e.inputs_unchanged /\ e.state_before = e.state_digest)   \* LibraryCallsPure
   /\ (e.act = "ForeignBatch") => (e.outcome = "ok" /\ e.ours_unchanged)
-  /\ (e.act \in {"Freeze", "Save", "DeepCopy", "ToDevice"} /\ e.outcome = "ok") => TRUE
+  /\ (e.act = "Freeze" /\ e.outcome = "ok") => e.float_weights_unchanged           \* freeze() never writes the float tensors it reads
 
 (* ======================== C08: quantize() and the forward recipe ================================== *)
 HyperSame(a, b) == a.hyper = b.hyper /\ a.has_bias = b.has_bias /\ a.dtype = b.dtype /\ a.device = b.device /\ a.name = b.name
